@@ -76,9 +76,11 @@ class TlsProtocolVersion(ProtocolVersionBase, GradeableSimple):
     def __lt__(self, other):
         if self.major == other.major:
             return self.minor < other.minor
-        if self.is_draft:
+        if self.is_draft or self.is_google_experimental:
+            if other.is_draft or other.is_google_experimental:
+                return self.major < other.major
             return other.version == TlsVersion.TLS1_3
-        if other.is_draft:
+        if other.is_draft or other.is_google_experimental:
             return self.version != TlsVersion.TLS1_3
 
         return self.major < other.major
